@@ -237,6 +237,13 @@ func TestC03(t *testing.T) {
 		// nothing inside an empty sub-object is ever demanded (reference walker as oracle)
 		rapid.Check(t, func(t *rapid.T) {
 			c := genC03Nested(t)
+			if rapid.IntRange(0, 29).Draw(t, "deepChain") == 0 {
+				// an empty required field far down a chain of required / optional sub-objects
+				n := rapid.IntRange(20, 70).Draw(t, "chainLen")
+				c = &StructCase{Root: desc.Ptr(desc.Named("Tree")), Val: desc.V{E: []desc.V{deepChain(n, map[int]bool{n - 1: true, rapid.IntRange(0, n-1).Draw(t, "emptyAt"): true})}},
+					PerType: map[string]map[string]string{"Tree": {"Left": rapid.SampledFrom([]string{"required|need", "exist"}).Draw(t, "chainMark"), "Name": "required|deep name"}}}
+				c.pickEntry(rapid.IntRange(0, 7).Draw(t, "chainEntry"))
+			}
 			msg, res, skipped := checkC02(c)
 			if skipped != "" {
 				ev.Excluded(strings.SplitN(skipped, ":", 2)[0])
